@@ -476,6 +476,19 @@ func checkScenario(run *vlib.Run, b *scen.Built, rep gs.Report, st *scenStat) {
 	if len(good) == 0 {
 		return
 	}
+	// (0) what a simulation reports about a processor is about THAT processor: the disassembly shown must be the
+	// one its own architecture gives (a check against the machine, not against another run: process-wide state
+	// left by earlier runs cannot hide behind "every run says the same")
+	for _, o := range good {
+		if i := strings.Index(o.Observation, "REPORT-MISMATCH"); i >= 0 {
+			what := o.Observation[i:]
+			if j := strings.Index(what, "\n"); j >= 0 {
+				what = what[:j]
+			}
+			run.Report("C09|"+comp+"|report-of-another-architecture", fmt.Sprintf("scenario %s (%s), schedule %v: %s", sc.Name, sc.Note, o.Choices, what), mk("report", what, o.Choices))
+			break
+		}
+	}
 	// (a) schedule independence
 	base := parseObs(good[0].Observation)
 	for _, o := range good[1:] {
